@@ -247,6 +247,9 @@ pub fn install_panic_hook() {
         } else {
             "<non-string payload>".to_string()
         };
+        if std::env::var_os("DMV_BACKTRACE").is_some() {
+            eprintln!("panic at {}: {}\n{}", loc, msg, std::backtrace::Backtrace::force_capture());
+        }
         let mut msg: String = msg.chars().take(160).collect();
         msg = msg.replace('\n', " ");
         LAST_PANIC.with(|p| *p.borrow_mut() = Some(format!("{} :: {}", loc, msg)));
